@@ -120,6 +120,24 @@ pub fn total_points(st: &PushState) -> usize {
     n
 }
 
+/// Code points plus the characters of all names plus the elements of all vectors (what a state weighs in memory).
+pub fn state_weight(st: &PushState) -> usize {
+    let mut n = total_points(st);
+    for i in 0..st.name_stack.size() {
+        n += st.name_stack.get(i).unwrap().len();
+    }
+    for i in 0..st.bool_vector_stack.size() {
+        n += st.bool_vector_stack.get(i).unwrap().values.len();
+    }
+    for i in 0..st.int_vector_stack.size() {
+        n += st.int_vector_stack.get(i).unwrap().values.len();
+    }
+    for i in 0..st.float_vector_stack.size() {
+        n += st.float_vector_stack.get(i).unwrap().values.len();
+    }
+    n + st.size()
+}
+
 const GUARDED: [&str; 16] = [
     "BOOLVECTOR.ONES", "BOOLVECTOR.ZEROS", "INTVECTOR.ONES", "INTVECTOR.ZEROS", "FLOATVECTOR.ONES", "FLOATVECTOR.ZEROS",
     "BOOLVECTOR.RAND", "INTVECTOR.RAND", "FLOATVECTOR.RAND", "FLOATVECTOR.SINE", "LIST.NEIGHBOR*IDS",
@@ -149,6 +167,8 @@ pub fn guard_envelope(iset: &mut InstructionSet, hit: Arc<Mutex<Option<String>>>
 /// The default instruction set plus the harness instructions.
 pub fn new_iset(probe: &ProbeLog) -> InstructionSet {
     let mut iset = InstructionSet::new();
+    // (one user instruction is registered before the defaults are loaded, the others afterwards: both orders are legitimate)
+    iset.add("VERIF.EARLY".to_string(), Instruction::new(|_st: &mut PushState, _c: &InstructionCache| {}));
     iset.load();
     let p = probe.clone();
     iset.add(
@@ -184,7 +204,7 @@ pub fn new_iset(probe: &ProbeLog) -> InstructionSet {
     // ... and names that would read as an integer / float literal (an instruction name wins)
     // ... names that start like a typed vector literal (the literal reading wins), and names that differ from a
     // built-in instruction in the case of their letters only (different names)
-    for name in ["VERIFSQUARE", "verif.lower", "2VERIF", "424242", "4.25", "BOOL[1,0]", "INT[7", "integer.max", "Float.<", "name.cat"].iter() {
+    for name in ["VERIFSQUARE", "verif.lower", "2VERIF", "424242", "4.25", "BOOL[1,0]", "INT[7", "integer.max", "Float.<", "name.cat", "intvector.sum"].iter() {
         iset.add(name.to_string(), Instruction::new(|_st: &mut PushState, _c: &InstructionCache| {}));
     }
     let p2 = probe.clone();
